@@ -9,7 +9,7 @@ RULE = ("every arrival workload of <= N packets (gap x flow x size per packet, o
 ASSUMPTIONS = [
     "D/M rule: arrivals tapped before the previous departure's tap (or in the driver step that woke an idle server) "
     "are definitely waiting at the service start; later same-instant arrivals may or may not have been seen",
-    "positive integer priorities; dyadic sizes/rates",
+    "positive priorities (whole and fractional); dyadic sizes/rates; with a non-identity flow2class the table is still read per flow",
 ]
 
 
@@ -29,6 +29,15 @@ def plan(tier, seed):
     for tab in three:
         cfgs.append(dict(sched="SP", table=tab, rate=8, flows=[0, 1, 2], sizes=[1, 2], N=3 if quick else 4, gaps="G5", order=0))
         cfgs.append(dict(sched="SP", table=tab, rate=8, flows=[0, 1, 2], sizes=[1], N=5 if quick else 6, gaps=["S", 1], order=1))
+    # ties below the top level, with transmissions long enough for an arrival to fall inside one
+    for tab in ([[0, 3], [1, 2], [2, 2]], [[2, 2], [1, 2], [0, 3]], [[0, 1], [1, 1], [2, 5]]):
+        cfgs.append(dict(sched="SP", table=tab, rate=8, flows=[0, 1, 2], sizes=[2], N=4 if quick else 5, gaps=["S", 1, 2], order=0))
+    # priorities are numbers, not necessarily whole ones; the table order must not matter
+    for tab in ([[0, 1.2], [1, 1.8]], [[0, 1.8], [1, 1.2]], [[0, 0.5], [1, 0.25]]):
+        cfgs.append(dict(sched="SP", table=tab, rate=8, flows=[0, 1], sizes=[1, 2], N=n2 - 1, gaps="G3", order=0))
+    # a flow-to-class function is only an annotation for SP: service still follows the flow's own priority
+    for tab in ([[0, 1], [1, 3], [2, 2]], [[0, 3], [1, 1], [2, 2]]):
+        cfgs.append(dict(sched="SP", table=tab, rate=8, flows=[0, 1, 2], sizes=[1], N=4 if quick else 5, gaps=["S", 1], order=0, map="mod2"))
     return {"cfgs": cfgs, "budget": None,
             "bound": "2 flows: N<=%d full menu, N<=%d reduced; 3 flows: N<=%d full menu, N<=%d on {same,+1} (deep backlogs)" % (n2 - 1, n2, 3 if quick else 4, 5 if quick else 6)}
 
